@@ -188,14 +188,18 @@ Record blist := mkBlist {
   bl_algo : Z;          (* 0 TLSF, 2 linear *)
   bl_minalign : Z;
   bl_blocks : list block;
-  bl_next : Z           (* nextBlockId *) }.
+  bl_next : Z;          (* nextBlockId *)
+  bl_incsort : bool     (* incrementalSort (switched off while a defragmentation run is active) *) }.
 
 Definition set_blocks (l : blist) (bs : list block) : blist :=
   mkBlist (bl_type l) (bl_pref l) (bl_min l) (bl_max l) (bl_gran l) (bl_explicit l) (bl_algo l)
-          (bl_minalign l) bs (bl_next l).
+          (bl_minalign l) bs (bl_next l) (bl_incsort l).
 Definition set_blocks_next (l : blist) (bs : list block) (n : Z) : blist :=
   mkBlist (bl_type l) (bl_pref l) (bl_min l) (bl_max l) (bl_gran l) (bl_explicit l) (bl_algo l)
-          (bl_minalign l) bs n.
+          (bl_minalign l) bs n (bl_incsort l).
+Definition set_incsort (l : blist) (b : bool) : blist :=
+  mkBlist (bl_type l) (bl_pref l) (bl_min l) (bl_max l) (bl_gran l) (bl_explicit l) (bl_algo l)
+          (bl_minalign l) (bl_blocks l) (bl_next l) b.
 
 Inductive lref := LDef (t : Z) | LPool (uid : Z).
 
@@ -221,20 +225,21 @@ Record alloc := mkAlloc {
   a_blk : Z;             (* id of blockData.block *)
   a_handle : Z;          (* blockData.handle *)
   a_mem : Z;             (* device memory id of [memory] *)
-  a_sm : SyncMem.sm      (* dedicated: the mapping state of [memory] *) }.
+  a_sm : SyncMem.sm;     (* dedicated: the mapping state of [memory] *)
+  a_temp : bool          (* userData is a defragmentation context: destination temporary of a pass *) }.
 
 (* Allocation.init *)
 Definition alloc_init (mapallowed : bool) : alloc :=
-  mkAlloc false 0 0 1 0 0 false mapallowed (LDef 0) (-1) 0 0 SyncMem.sm_init.
+  mkAlloc false 0 0 1 0 0 false mapallowed (LDef 0) (-1) 0 0 SyncMem.sm_init false.
 
 Definition alloc_zero : alloc := alloc_init false.
 
 Definition set_allocated (a : alloc) (b : bool) : alloc :=
   mkAlloc b (a_kind a) (a_size a) (a_align a) (a_type a) (a_sub a) (a_persist a) (a_mapallowed a)
-          (a_lref a) (a_blk a) (a_handle a) (a_mem a) (a_sm a).
+          (a_lref a) (a_blk a) (a_handle a) (a_mem a) (a_sm a) (a_temp a).
 Definition set_a_sm (a : alloc) (s : SyncMem.sm) : alloc :=
   mkAlloc (a_allocated a) (a_kind a) (a_size a) (a_align a) (a_type a) (a_sub a) (a_persist a) (a_mapallowed a)
-          (a_lref a) (a_blk a) (a_handle a) (a_mem a) s.
+          (a_lref a) (a_blk a) (a_handle a) (a_mem a) s (a_temp a).
 
 (* Allocator *)
 Record vam := mkVam {
@@ -359,7 +364,7 @@ Fixpoint bubble_once (bs : list block) : list block :=
   end.
 
 Definition incrementally_sort (l : blist) : blist :=
-  if bl_algo l =? 2 then l else set_blocks l (bubble_once (bl_blocks l)).
+  if negb (bl_incsort l) || (bl_algo l =? 2) then l else set_blocks l (bubble_once (bl_blocks l)).
 
 Definition sort_list (v : vam) (lr : lref) : vam :=
   match get_blist v lr with Some l => set_blist v lr (incrementally_sort l) | None => v end.
@@ -431,7 +436,7 @@ Definition commit_request (v : vam) (lr : lref) (bid : Z) (rq : mreq) (reqsize a
         if mapped && negb allowed then (v4, AFPanic)
         else
           let a := mkAlloc true 1 (mreq_size rq) align (bl_type l) sub mapped allowed lr bid handle (bk_mem b)
-                           SyncMem.sm_init in
+                           SyncMem.sm_init false in
           let v5 := set_alloc v4 slot a in
           (set_m v5 (add_allocation c (v_m v5) (type_heap c (bl_type l)) (mreq_size rq)), AFOk)
       end
